@@ -9,7 +9,8 @@ A program is a dict  tag -> list of actions; tag -1 is construct_model, tags
   ('c', target)                 cancel event `target` if it was ever created
   ('ill', what)                 illegal request: past | negdelay | nanabs |
                                 nanrel | nanev | badtype
-A fault plan (C05) maps tag -> 'pre' | 'post' (raise before/after its actions).
+A fault plan (C05) maps tag -> 'pre' | 'post' (raise before/after its actions)
+| 'prebase' (raise a BaseException that is not an Exception) | 'stoppre'.
 """
 import itertools
 import math
@@ -113,6 +114,11 @@ def prog_from_json(j):
 
 
 # ------------------------------------------------------------------ real model
+class BaseFault(BaseException):
+    """what sys.exit() / an interrupt inside a handler raises: not an
+    Exception, still a failing handler"""
+
+
 class Fault(Exception):
     pass
 
@@ -188,6 +194,8 @@ def make_model_class():
                 raise Fault("stoppre %r" % (tag,))
             if f == "pre":
                 raise Fault("pre %r" % (tag,))
+            if f == "prebase":
+                raise BaseFault("prebase %r" % (tag,))
             self.do(tag)
             if f == "post":
                 raise Fault("post %r" % (tag,))
@@ -328,7 +336,7 @@ class Ref:
             return "W"
         self.trace.append((float(self.clock), e[3]))
         f = self.faults.get(e[3])
-        if f not in ("pre", "stoppre"):
+        if f not in ("pre", "stoppre", "prebase"):
             self.do(e[3])
         return e[3]
 
@@ -611,6 +619,9 @@ def issue(sim, s, model, piece, T, base=None):
     except DSOLError:
         out = "DSOLError"
     except Exception as ex:  # noqa
+        out = "other:%s" % type(ex).__name__
+    except BaseFault as ex:
+        # the handler's non-Exception came out of the command
         out = "other:%s" % type(ex).__name__
     finally:
         s.wait_quiescent()
